@@ -617,6 +617,18 @@ pub fn run(ctx: &Ctx) -> Report {
         let modules = crate::mcheck::module_sources(&c);
         corpus.push((print_program(&c.prog, false), modules));
     }
+    // the standard corpus with every call made through a wrapper lambda (metamorph.rs): every call site makes
+    // a closure over the variables in scope and drops it - with a collection at every allocation
+    let n_wrapped = {
+        let std_corpus = crate::metamorph::standard_corpus(if thorough { 2 } else { 8 });
+        let v = crate::metamorph::wrapper_cases("calls_through_wrappers", &std_corpus);
+        let n = v.len();
+        for c in v {
+            let modules = crate::mcheck::module_sources(&c);
+            corpus.push((print_program(&c.prog, false), modules));
+        }
+        n
+    };
     corpus.extend(open_upvalue_lists().into_iter().map(|s| (s, BTreeMap::new())));
     corpus.extend(kept_across_reset());
     let n_embed = { let v = made_by_the_embedding(); let n = v.len(); corpus.extend(v); n };
@@ -728,6 +740,7 @@ pub fn run(ctx: &Ctx) -> Report {
     report.cov("heap_shape_programs", json!(n_shapes));
     report.cov("corpus_programs", json!(n_corpus));
     report.cov("histories_of_values_made_by_the_embedding", json!(n_embed));
+    report.cov("programs_with_every_call_through_a_wrapper_lambda", json!(n_wrapped));
     report.cov("programs_run_on_the_optimised_runner_with_paced_collections", json!(n_paced));
     report.cov("schedules_run", json!(acc.schedules));
     report.cov("allocation_points_covered", json!(acc.alloc_points));
